@@ -1,0 +1,8 @@
+//go:build verif
+
+package radius
+
+// Present only together with the verifCrashPoint marker calls in
+// accounting.go (same hook patch): tells the C08 harness that crash points can
+// be enumerated.
+func init() { verifMarkersCompiledIn = true }
